@@ -11,6 +11,7 @@ ap.add_argument('--checks', default='own')
 ap.add_argument('--patches', default='')
 ap.add_argument('--tier', default='quick')
 ap.add_argument('--out', default=os.path.join(HERE, 'findings', 'detection_matrix.json'))
+ap.add_argument('--shard', default='')   # i/n: every n-th patch starting at i
 a = ap.parse_args()
 
 ALL = ['C%02d' % i for i in range(1, 21)]
@@ -33,6 +34,9 @@ if a.patches:
     keep = a.patches.split(',')
     patches = [x for x in patches if any(k in x[0] for k in keep)]
 
+if a.shard:
+    _i, _n = map(int, a.shard.split('/'))
+    patches = patches[_i::_n]
 scratch = tempfile.mkdtemp(prefix='mcx-matrix-')
 repo = os.path.join(scratch, 'repo')
 src = os.environ.get('MATRIX_SRC', '/repo')
